@@ -5,6 +5,7 @@ import Exetera.Spec.CsvLine
 
   * D25 and NC16a are *repaired* (fixes/D25_*.patch, fixes/NC16a_*.patch); the as-found variant of the batch loop is kept
     in the model so that the defects stay documented by theorems and a regression can be named.
+  * NC16b is an open finding (not repaired: no small safe patch): the model mirrors it.
   * The last group shows that the hypotheses of `Props.C16.concat_eq_spec` are not superfluous: outside them the
     (repaired) model runs out of its buffers.
 -/
@@ -43,9 +44,11 @@ theorem nc16a_repaired :
 
 /-! ### the hypotheses of `concat_eq_spec` are needed -/
 
-/-- a span output (4 bytes) longer than half the value buffer (4 / 2): after the first span (1 byte, below the limit 2)
-    the second one does not fit any more -/
-theorem room_hypothesis_needed :
+/-- NC16b (open finding; also why `concat_eq_spec` needs its room hypothesis): the value buffer (4 bytes) can hold the
+    longest span output (4 bytes), but after the first span (1 byte, below the batch limit 4/2) the second one is
+    written without any check of the room left and runs past the buffer -/
+theorem nc16b_span_longer_than_half_buffer :
+    (∀ o ∈ concatSpec (44 : Nat) 34 [[97], [98, 99, 100, 101]] [0, 1, 2], o.length ≤ 2 * 2) ∧
     applySpansConcat .repaired (44 : Nat) 34 [0, 1, 2] (offsets [[97], [98, 99, 100, 101]]) [97, 98, 99, 100, 101] 4 2 2
       = .error (.oob "dest_values[copy]") := by decide
 
